@@ -16,7 +16,7 @@ RULE = (
     "distinct event digests among those."
 )
 PROBES = ["unaligned-read", "crosses-one-boundary", "crosses-two-boundaries", "read_plan-compared", "twin-compared",
-          "ascending-band", "4-bit", "out-of-range-raises", "plan-gulp-not-dividing-NSBLK", "scales-offsets-weights", "held-blocks-rechecked", "earlier-file-at-the-same-path"]
+          "ascending-band", "4-bit", "out-of-range-raises", "plan-gulp-not-dividing-NSBLK", "scales-offsets-weights", "held-blocks-rechecked", "earlier-file-at-the-same-path", "gzip-compressed-file"]
 COMPONENTS = {
     "real": ["sigpyproc.readers.PFITSReader.read_block/read_plan", "sigpyproc.io.pfits.PFITSFile (read_subints/read_subint_pol/read_subint)",
              "Header.from_pfits", "Filterbank.collapse/bandpass on the PSRFITS reader", "astropy.io.fits (mmap; outside the fault seam)"],
